@@ -10,6 +10,9 @@ def build(tier):
     obs = steps.step_obligations("C08.a", [k for k in kinds if k != "cpp_class"], tier, md, mc, symflags=True, symargs=False)
     # implementing definitions that take nothing beyond the name and self (the pending declaration is consumed all the same)
     obs += steps.step_obligations("C08.a", ["function", "macro"], tier, md, mc, symflags=True, symargs=False, arities={"function": [2], "macro": [2]})
+    # a cmake_parse_arguments call under two open definitions (documented outer, hidden inner): it marks the innermost frame only
+    if quick:
+        obs += steps.step_obligations("C08.a", ["cmake_parse_arguments"], tier, 2, 1, symflags=True, symargs=False)
     # known finding D3 (documented cpp_class with include_undocumented_cpp_class off): its region is subtracted from the cpp_class
     # shard, and isolated in a shard of its own that is expected to fail (prints KNOWN-FINDING; says so if it stops reproducing)
     obs += steps.step_obligations("C08.a", ["cpp_class"], tier, md, mc, symflags=True, symargs=False, region=("D3", "out"))
